@@ -509,3 +509,23 @@ Theorem stream_source_shape :
   stream_subscribes_on_entry = true /\ stream_one_queue_for_all_signals = true /\
   stream_unsubscribes_on_exit = true /\ wait_returns_first_yielded = true /\ shortcuts_delegate = true.
 Proof. repeat split. Qed.
+
+(* ---------- leaving a stream (Gen_signal: what _subscribe undoes) ---------- *)
+(* whoever leaves, leaves alone: every other subscriber -- subscribed before or after him -- stays as it is *)
+Theorem leave_changes_only_the_leaver : forall s sid j, j <> sid ->
+  nth_error (streams (fst (sstep s (Leave sid)))) j = nth_error (streams s) j.
+Proof.
+  intros s sid j N. unfold sstep. destruct (nth_error (streams s) sid) as [st|] eqn:E; [|reflexivity].
+  destruct (s_active st); [|reflexivity]. unfold sig_unsubscribes_its_own_stream. cbv iota. rewrite E.
+  cbn [fst streams]. rewrite upd_nth. destruct (Nat.eqb j sid) eqn:Q; [apply Nat.eqb_eq in Q; congruence|reflexivity].
+Qed.
+
+(* ... and he is gone: no longer subscribed to any channel *)
+Theorem leave_unsubscribes_the_leaver : forall s sid st c,
+  nth_error (streams s) sid = Some st -> s_active st = true ->
+  exists st', nth_error (streams (fst (sstep s (Leave sid)))) sid = Some st' /\ subscribed c st' = false /\
+              s_yielded st' = s_yielded st.
+Proof.
+  intros s sid st c E A. unfold sstep. rewrite E, A. unfold sig_unsubscribes_its_own_stream. cbv iota. rewrite E.
+  cbn [fst streams]. rewrite upd_nth, Nat.eqb_refl, E. eexists. split; [reflexivity|]. split; reflexivity.
+Qed.
